@@ -79,6 +79,7 @@ struct Frame {
     std::vector<Val> regs;
     std::vector<uint64_t> allocas;
     CallBase* callsite = nullptr;  // in caller
+    std::unordered_map<const Value*, unsigned>* slots = nullptr;
 };
 
 struct State {
@@ -130,7 +131,8 @@ public:
     Module& M;
     const DataLayout& DL;
     Stats st;
-    std::map<const Function*, std::unordered_map<const Value*, unsigned>> slotmap;
+    std::unordered_map<const Function*, std::unordered_map<const Value*, unsigned>> slotmap;
+    std::set<const Function*> loggedFns;
     std::map<const GlobalValue*, uint64_t> gaddr;
     std::map<uint64_t, Function*> faddr;
     std::vector<State> work;
@@ -278,6 +280,38 @@ public:
         return *o;
     }
     struct MemFault : std::runtime_error { using std::runtime_error::runtime_error; };
+
+    // bulk copy / fill: when source and destination ranges lie in live objects and hold no symbolic bytes, work on the byte vectors directly
+    bool rangeHasSym(const MemObj& o, uint64_t off, uint64_t n) { if (o.symb.empty()) return false; auto it = o.symb.lower_bound(off); return it != o.symb.end() && it->first < off + n; }
+    void bulkCopy(State& s, uint64_t d, uint64_t sr, uint64_t n)
+    {
+        if (!n) return;
+        ObjP so = findObj(s, sr, n), dobj = findObj(s, d, n);
+        if (so && dobj && !so->freed && !dobj->freed && !dobj->readonly && !rangeHasSym(*so, sr - so->base, n)) {
+            std::vector<uint8_t> tmp(so->bytes.begin() + (sr - so->base), so->bytes.begin() + (sr - so->base) + n);
+            MemObj& w = writable(s, dobj);
+            uint64_t off = d - w.base;
+            if (!w.symb.empty()) w.symb.erase(w.symb.lower_bound(off), w.symb.lower_bound(off + n));
+            std::copy(tmp.begin(), tmp.end(), w.bytes.begin() + off);
+            return;
+        }
+        std::vector<Val> tmp;
+        for (uint64_t i = 0; i < n; i++) tmp.push_back(load(s, Val(64, sr + i), 8));
+        for (uint64_t i = 0; i < n; i++) store(s, Val(64, d + i), tmp[i]);
+    }
+    void bulkFill(State& s, uint64_t d, const Val& v, uint64_t n)
+    {
+        if (!n) return;
+        ObjP dobj = findObj(s, d, n);
+        if (dobj && !v.sym && !dobj->freed && !dobj->readonly) {
+            MemObj& w = writable(s, dobj);
+            uint64_t off = d - w.base;
+            if (!w.symb.empty()) w.symb.erase(w.symb.lower_bound(off), w.symb.lower_bound(off + n));
+            std::fill(w.bytes.begin() + off, w.bytes.begin() + off + n, (uint8_t)(v.c & 0xff));
+            return;
+        }
+        for (uint64_t i = 0; i < n; i++) store(s, Val(64, d + i), v);
+    }
 
     uint64_t concretePtr(State& s, const Val& p, const char* what)
     {
@@ -538,15 +572,20 @@ public:
     }
 
     // ---- frames / operands
-    unsigned slot(Frame& f, const Value* v)
+    std::unordered_map<const Value*, unsigned>& slotsOf(const Function* fn)
     {
-        auto& m = slotmap[f.fn];
+        auto& m = slotmap[fn];
         if (m.empty()) {
             unsigned n = 0;
-            for (auto& a : f.fn->args()) m[&a] = n++;
-            for (auto& b : *f.fn) for (auto& i : b) m[&i] = n++;
+            for (auto& a : fn->args()) m[&a] = n++;
+            for (auto& b : *fn) for (auto& i : b) m[&i] = n++;
         }
-        return m.at(v);
+        return m;
+    }
+    unsigned slot(Frame& f, const Value* v)
+    {
+        if (!f.slots) f.slots = &slotsOf(f.fn);
+        return f.slots->at(v);
     }
     Val op(State& s, const Value* v)
     {
@@ -608,13 +647,13 @@ public:
     void pushFrame(State& s, Function* F, std::vector<Val>& args, CallBase* cs)
     {
         if (F->isDeclaration()) throw EngineError("call to undefined function " + F->getName().str());
-        st.fns.insert(F->getName().str());
+        if (loggedFns.insert(F).second) st.fns.insert(F->getName().str());
         Frame f;
         f.fn = F; f.bb = &F->getEntryBlock(); f.it = f.bb->begin(); f.callsite = cs;
         s.stack.push_back(std::move(f));
         Frame& fr = s.stack.back();
-        slot(fr, F->arg_begin() != F->arg_end() ? (const Value*)F->arg_begin() : (const Value*)&*fr.bb->begin());
-        fr.regs.resize(slotmap[F].size());
+        fr.slots = &slotsOf(F);
+        fr.regs.resize(fr.slots->size());
         unsigned i = 0;
         for (auto& a : F->args()) { if (i < args.size()) fr.regs[i] = args[i]; i++; }
         if (s.stack.size() > 2000) throw EngineError("stack depth exceeded");
@@ -860,13 +899,11 @@ public:
             std::string x = readCStr(s, a[0].c), y = readCStr(s, a[1].c); int c = strcmp(x.c_str(), y.c_str()); r = Val(32, (uint64_t)(c < 0 ? -1 : c > 0)); return true; };
         ext["memcpy"] = ext["memmove"] = [this](State& s, CallBase&, std::vector<Val>& a, Val& r) {
             if (a[2].sym || a[0].sym || a[1].sym) throw EngineError("symbolic memcpy");
-            std::vector<Val> tmp;
-            for (uint64_t i = 0; i < a[2].c; i++) tmp.push_back(load(s, Val(64, a[1].c + i), 8));
-            for (uint64_t i = 0; i < a[2].c; i++) store(s, Val(64, a[0].c + i), tmp[i]);
+            bulkCopy(s, a[0].c, a[1].c, a[2].c);
             r = a[0]; return true; };
         ext["memset"] = [this](State& s, CallBase&, std::vector<Val>& a, Val& r) {
             if (a[2].sym || a[0].sym) throw EngineError("symbolic memset");
-            for (uint64_t i = 0; i < a[2].c; i++) store(s, Val(64, a[0].c + i), Val(8, a[1].c));
+            bulkFill(s, a[0].c, Val(8, a[1].c), a[2].c);
             r = a[0]; return true; };
         ext["realloc"] = [this](State& s, CallBase&, std::vector<Val>& a, Val& r) {
             auto n = alloc(s, a[1].c, "heap", true);
@@ -1031,7 +1068,7 @@ public:
             runState(s);
             // states are expensive: share out what there is (round-robin over the workers evens out unequal subtrees only if there are many states)
             double el = now() - tPhase1;
-            if ((el > 15 && work.size() >= (size_t)jobs * 2) || (el > 45 && work.size() >= 2)) break;
+            if ((el > 2 && work.size() >= (size_t)jobs * 4) || (el > 6 && work.size() >= (size_t)jobs) || (el > 20 && work.size() >= 2)) break;
         }
         int rank = -1;
         std::vector<pid_t> kids;
@@ -1290,15 +1327,13 @@ public:
                     case Intrinsic::memcpy: case Intrinsic::memmove: {
                         Val d = op(s, cb.getArgOperand(0)), sr = op(s, cb.getArgOperand(1)), n = op(s, cb.getArgOperand(2));
                         if (n.sym || d.sym || sr.sym) throw EngineError("symbolic memcpy");
-                        std::vector<Val> tmp;
-                        for (uint64_t i = 0; i < n.c; i++) tmp.push_back(load(s, Val(64, sr.c + i), 8));
-                        for (uint64_t i = 0; i < n.c; i++) store(s, Val(64, d.c + i), tmp[i]);
+                        bulkCopy(s, d.c, sr.c, n.c);
                         break;
                     }
                     case Intrinsic::memset: {
                         Val d = op(s, cb.getArgOperand(0)), v = op(s, cb.getArgOperand(1)), n = op(s, cb.getArgOperand(2));
                         if (n.sym || d.sym) throw EngineError("symbolic memset");
-                        for (uint64_t i = 0; i < n.c; i++) store(s, Val(64, d.c + i), v);
+                        bulkFill(s, d.c, v.sym ? v : Val(8, v.c & 0xff), n.c);
                         break;
                     }
                     case Intrinsic::fabs: {
@@ -1314,6 +1349,19 @@ public:
                         Val neg = binop(Instruction::Sub, Val(a.bits, 0), a, s);
                         Val c = icmp(CmpInst::ICMP_SLT, a, Val(a.bits, 0));
                         setReg(s, &I, !c.sym ? (c.c ? neg : a) : mkSym(a.bits, z3::ite(toBool(c), neg.ex(), a.ex())));
+                        break;
+                    }
+                    case Intrinsic::ctlz: case Intrinsic::cttz: case Intrinsic::ctpop: case Intrinsic::bswap: {
+                        Val a = op(s, cb.getArgOperand(0));
+                        if (a.sym) throw EngineError("symbolic bit-count intrinsic " + F->getName().str());
+                        uint64_t v = a.bits < 64 ? (a.c & ((1ULL << a.bits) - 1)) : a.c, r = 0;
+                        switch (F->getIntrinsicID()) {
+                        case Intrinsic::ctlz: r = a.bits; for (unsigned k = 0; k < a.bits; k++) if (v >> (a.bits - 1 - k) & 1) { r = k; break; } break;
+                        case Intrinsic::cttz: r = a.bits; for (unsigned k = 0; k < a.bits; k++) if (v >> k & 1) { r = k; break; } break;
+                        case Intrinsic::ctpop: r = __builtin_popcountll(v); break;
+                        default: for (unsigned k = 0; k < a.bits / 8; k++) r |= ((v >> (8 * k)) & 0xff) << (a.bits - 8 - 8 * k); break;
+                        }
+                        setReg(s, &I, Val(a.bits, r));
                         break;
                     }
                     default: throw EngineError("intrinsic " + F->getName().str());
